@@ -110,6 +110,9 @@ pub enum LOp {
     Draw(DrawOp),
     /// sleep + wake, scroll set-up, tearing: must not disturb placement
     Noise(u8),
+    /// set_orientation(first) with its k-th low-level operation failing, then set_orientation(second),
+    /// which must succeed and count like any other successful call
+    FailedOrient(Orient, u8, Orient),
 }
 
 #[derive(Clone, Debug, PartialEq, Eq, Hash, Serialize, Deserialize)]
@@ -126,6 +129,7 @@ pub fn check_life(c: &LifeCase, info: &mut CaseInfo) -> Result<(), String> {
     let mut orient = c.cfg.orient;
     let mut changes = 0;
     let mut draws_after_change = 0;
+    let mut failed_then_ok = 0;
     for (i, op) in c.ops.iter().enumerate() {
         match op {
             LOp::Orient(o) => {
@@ -138,6 +142,57 @@ pub fn check_life(c: &LifeCase, info: &mut CaseInfo) -> Result<(), String> {
                 let (lw, lh) = c.cfg.logical_size(orient);
                 if s.dut.size() != (lw, lh) || s.dut.orientation() != orient {
                     return Err(format!("step {}: after set_orientation({:?}) the display reports {:?} / size {:?}", i, o, s.dut.orientation(), s.dut.size()));
+                }
+                let held = s.w.borrow().panel.madctl;
+                let want = madctl_of(&c.cfg, orient);
+                if held != want {
+                    return Err(format!("step {}: after set_orientation({:?}) the controller holds address mode {:#010b}, expected {:#010b} (colour order / refresh order bits as programmed by init)", i, o, held, want));
+                }
+                s.w.borrow_mut().panel.take_trace();
+            }
+            LOp::FailedOrient(o1, k, o2) => {
+                let armed = {
+                    let mut wb = s.w.borrow_mut();
+                    let a = wb.ops + *k as u64;
+                    wb.fail_at = vec![a];
+                    a
+                };
+                let r = s.dut.set_orientation(*o1);
+                let reached = {
+                    let mut wb = s.w.borrow_mut();
+                    wb.fail_at.clear();
+                    wb.ops > armed
+                };
+                let mut target = *o1;
+                match r {
+                    Ok(()) => {}
+                    Err(e) if !reached => return Err(format!("step {}: set_orientation failed although no operation did: {:?}", i, e)),
+                    Err(_) => {
+                        // a torn command may have reached the controller; what the display reports now is not
+                        // fixed by this property - the next successful call is
+                        {
+                            let mut wb = s.w.borrow_mut();
+                            wb.panel.take_errors();
+                            wb.decode_errors.clear();
+                        }
+                        s.dut.set_orientation(*o2).map_err(|e| format!("step {}: set_orientation({:?}) after a failed one failed: {:?}", i, o2, e))?;
+                        target = *o2;
+                        failed_then_ok += 1;
+                    }
+                }
+                if target != orient {
+                    changes += 1;
+                }
+                orient = target;
+                s.orient = orient;
+                let (lw, lh) = c.cfg.logical_size(orient);
+                if s.dut.size() != (lw, lh) || s.dut.orientation() != orient {
+                    return Err(format!("step {}: after a successful set_orientation({:?}) the display reports {:?} / size {:?}", i, target, s.dut.orientation(), s.dut.size()));
+                }
+                let held = s.w.borrow().panel.madctl;
+                let want = madctl_of(&c.cfg, orient);
+                if held != want {
+                    return Err(format!("step {}: after a successful set_orientation({:?}) the controller holds address mode {:#010b}, expected {:#010b}", i, target, held, want));
                 }
                 s.w.borrow_mut().panel.take_trace();
             }
@@ -190,8 +245,18 @@ pub fn check_life(c: &LifeCase, info: &mut CaseInfo) -> Result<(), String> {
     if changes > 1 {
         info.label("several-orientation-changes");
     }
+    if failed_then_ok > 0 {
+        info.label("failed-set_orientation-then-successful-one");
+    }
     info.label(c.cfg.transport.label());
     Ok(())
+}
+
+/// the address mode a display with this configuration and orientation holds: orientation bits from the
+/// geometric derivation, colour-order and refresh bits as the model's init programs them
+fn madctl_of(cfg: &Config, o: Orient) -> u8 {
+    thread_local! { static TABLE: [u8; 8] = crate::oracle::derive_orientation_bits(); }
+    TABLE.with(|t| crate::oracle::madctl_expected(t, o, cfg.madctl_bgr(), cfg.refresh_v, cfg.refresh_h))
 }
 
 pub fn life_strategy(menu: gen::ConfigMenu) -> BoxedStrategy<LifeCase> {
@@ -206,6 +271,7 @@ pub fn life_strategy_n(menu: gen::ConfigMenu, max_steps: usize) -> BoxedStrategy
             let (w, h) = (cfg.w as u32, cfg.h as u32);
             let op = prop_oneof![
                 3 => gen::orient().prop_map(LOp::Orient),
+                1 => (gen::orient(), 0u8..5, gen::orient()).prop_map(|(a, k, b)| LOp::FailedOrient(a, k, b)),
                 4 => gen::op_in(w, h, false).prop_map(LOp::Draw),
                 3 => gen::op_wild(h, w).prop_map(LOp::Draw),
                 1 => any::<u8>().prop_map(LOp::Noise),
@@ -216,15 +282,28 @@ pub fn life_strategy_n(menu: gen::ConfigMenu, max_steps: usize) -> BoxedStrategy
             // set_pixel / set_pixels are only defined for in-bounds coordinates: turn those generated for
             // the other shape into DrawTarget calls
             let mut orient = cfg.orient;
+            let mut unsure = false;
             let ops = ops
                 .into_iter()
                 .map(|op| match op {
                     LOp::Orient(o) => {
                         orient = o;
+                        unsure = false;
                         LOp::Orient(o)
                     }
+                    // (which of the two orientations ends up in force depends on whether the fault is reached;
+                    // the draws that follow are clipped by the interpreter either way - see below)
+                    LOp::FailedOrient(a, k, b) => {
+                        unsure = true;
+                        LOp::FailedOrient(a, k, b)
+                    }
                     LOp::Draw(d) => {
-                        let (lw, lh) = cfg.logical_size(orient);
+                        let (mut lw, mut lh) = cfg.logical_size(orient);
+                        if unsure {
+                            // in bounds under either shape
+                            lw = lw.min(lh);
+                            lh = lw;
+                        }
                         LOp::Draw(match d {
                             DrawOp::SetPixel { x, y, seed } if x as u32 >= lw || y as u32 >= lh => DrawOp::DrawIter { pts: vec![(x as i32, y as i32)], seed },
                             DrawOp::SetPixels { sx, sy, ex, ey, n, seed } if ex as u32 >= lw || ey as u32 >= lh => DrawOp::FillContiguous {
